@@ -196,7 +196,7 @@ func validName(k string) bool {
 
 func validValue(v string) bool {
 	for i := 0; i < len(v); i++ {
-		if v[i] < 0x20 || v[i] >= 0x7f {
+		if (v[i] < 0x20 && v[i] != '\t') || v[i] >= 0x7f {
 			return false
 		}
 	}
@@ -218,6 +218,9 @@ func genProxy(r *hx.Rand, i int) interface{} {
 	in.Wire = genWire(r, in.Cfg, forgedValues, nil)
 	if r.Chance(1, 3) {
 		in.Wire = append(in.Wire, wireHdr{caseVariant(r, "Upgrade"), sp(r.Pick(upgradeValues))})
+	}
+	if r.Chance(1, 6) {
+		in.Wire = append(in.Wire, genConnection(r, in.Cfg))
 	}
 	if r.Chance(1, 14) {
 		in.Host = r.Pick(pHostV6)
@@ -261,31 +264,23 @@ func init() {
 	})
 }
 
-// c08.hopbyhop: the same set-up, but the client declares headers of this property hop-by-hop in its
-// Connection header (recorded finding D12d: httputil.ReverseProxy then drops what addHeaders has just set).
+// c08.hopbyhop: the same set-up, every case with a Connection header that declares headers of this property
+// hop-by-hop (D12d, repaired: httputil.ReverseProxy used to drop what addHeaders had just set).
 func genHopByHop(r *hx.Rand, i int) interface{} {
 	in := genProxy(r, i).(proxyIn)
-	names := append([]string{}, managedNames[:7]...)
-	if in.Cfg.CIP != "" {
-		names = append(names, in.Cfg.CIP, in.Cfg.CIP)
+	if !hasConnection(in.Wire) {
+		in.Wire = append(in.Wire, genConnection(r, in.Cfg))
 	}
-	if in.Cfg.TLSH != "" {
-		names = append(names, in.Cfg.TLSH, in.Cfg.TLSH)
-	}
-	if in.Cfg.ReqID != "" {
-		names = append(names, in.Cfg.ReqID)
-	}
-	var toks []string
-	for n := 1 + r.Intn(3); n > 0; n-- {
-		if r.Chance(1, 6) {
-			toks = append(toks, r.Pick([]string{"X-Other", "keep-alive", "", "Cookie"}))
-		} else {
-			toks = append(toks, caseVariant(r, r.Pick(names)))
+	return in
+}
+
+func hasConnection(w []wireHdr) bool {
+	for _, h := range w {
+		if strings.EqualFold(h.K, "Connection") {
+			return true
 		}
 	}
-	sep := r.Pick([]string{", ", ",", " , "})
-	in.Wire = append(in.Wire, wireHdr{caseVariant(r, "Connection"), sp(strings.TrimSpace(strings.Join(toks, sep)))})
-	return in
+	return false
 }
 
 func init() {
